@@ -1,6 +1,7 @@
 package main
 
 import (
+	"bytes"
 	"fmt"
 	"reflect"
 	"strings"
@@ -307,6 +308,55 @@ func runC04(c *Ctx) {
 			}
 			c04Msg(c, "per-type", m, ":"+dns.Type(typ).String())
 		}
+	}
+	// the exported siblings of Msg.Pack: PackRR with the caller's map into a buffer that does not begin with a header — the
+	// first owner name stands at offset 0 and later names can only be compressed by pointing there; what is written with
+	// compression reads back as the records that were written
+	for i, n := 0, c.Scale(300, 6000); i < n; i++ {
+		g := genMsg(r, msgOpts{mode: r.Intn(2), pool: true, maxAn: 4, maxNs: 3, maxEx: 2, optPct: 0})
+		m, err := unpackGen(g)
+		if err != nil {
+			continue
+		}
+		rrs := append(append(append([]dns.RR{}, m.Answer...), m.Ns...), m.Extra...)
+		if len(rrs) < 2 {
+			continue
+		}
+		buf := make([]byte, 65535)
+		cm := map[string]int{}
+		off := 0
+		ok := true
+		for _, rr := range rrs {
+			o2, err := dns.PackRR(rr, buf, off, cm, true)
+			if err != nil {
+				ok = false
+				break
+			}
+			off = o2
+		}
+		if !ok {
+			continue
+		}
+		res := guard(func() string {
+			o := 0
+			for k, rr := range rrs {
+				rr2, o2, err := dns.UnpackRR(buf[:off], o)
+				if err != nil {
+					return fmt.Sprintf("record %d: %v", k, err)
+				}
+				w1, e1 := packRRBytes(rr)
+				w2, e2 := packRRBytes(rr2)
+				if e1 != nil || e2 != nil || !bytes.Equal(w1, w2) {
+					return fmt.Sprintf("record %d reads back as %s", k, rr2.String())
+				}
+				o = o2
+			}
+			if o != off {
+				return "octets left over"
+			}
+			return "ok"
+		})
+		c.Pred("packrr-at-offset-0", "compressed-rrset-reads-back", fmt.Sprintf("%d records, %d octets: %s", len(rrs), off, hx(buf[:min(off, 300)])), res == "ok", res, "ok", true)
 	}
 }
 
